@@ -201,7 +201,74 @@ func loadDir(dir string, tests bool, dead map[string]bool) (*Program, error) {
 		}
 	}
 	p.aliasRenamed()
+	p.aliasRenamedFields()
 	return p, nil
+}
+
+// renamedField maps "pkg.Struct.newName" to "pkg.Struct.oldName".
+var renamedField = map[string]string{}
+
+func (p *Program) aliasRenamedFields() {
+	q := func(pk *types.Package) string { return pk.Name() }
+	for _, pk := range p.Pkgs {
+		sc := pk.Types.Scope()
+		for _, nm := range sc.Names() {
+			tn, ok := sc.Lookup(nm).(*types.TypeName)
+			if !ok {
+				continue
+			}
+			st, ok := tn.Type().Underlying().(*types.Struct)
+			if !ok {
+				continue
+			}
+			key := pk.Name + "." + nm
+			known, ok := KnownFields[key]
+			if !ok {
+				continue
+			}
+			cur := map[string]string{}
+			for i := 0; i < st.NumFields(); i++ {
+				cur[st.Field(i).Name()] = types.TypeString(st.Field(i).Type(), q)
+			}
+			old := map[string]string{}
+			for _, f := range known {
+				i := strings.Index(f, " ")
+				old[f[:i]] = f[i+1:]
+			}
+			var missing, added []string
+			for n := range old {
+				if _, ok := cur[n]; !ok {
+					missing = append(missing, n)
+				}
+			}
+			for n := range cur {
+				if _, ok := old[n]; !ok {
+					added = append(added, n)
+				}
+			}
+			sort.Strings(missing)
+			sort.Strings(added)
+			for _, m := range missing {
+				var cands []string
+				for _, a := range added {
+					if cur[a] == old[m] {
+						cands = append(cands, a)
+					}
+				}
+				// unambiguous only: one candidate, and no other missing field of that type
+				others := 0
+				for _, m2 := range missing {
+					if m2 != m && old[m2] == old[m] {
+						others++
+					}
+				}
+				if len(cands) == 1 && others == 0 {
+					renamedField[key+"."+cands[0]] = key + "." + m
+					p.LoadNote = append(p.LoadNote, "field "+key+"."+cands[0]+" taken as the renamed "+key+"."+m+" (same struct, same type, the only candidate)")
+				}
+			}
+		}
+	}
 }
 
 // renamed maps the key of a function that is new relative to KnownFuncs to the
